@@ -176,4 +176,28 @@ theorem deregisterBroker_eq (E : List Addr → Int) (EB : List (Int × Addr) →
     · simp [Gen.C15.deregisterBroker, deregisterKnown, h]
     · simp [Gen.C15.deregisterBroker, deregisterKnown, h]
 
+/-! ### lock discipline (presence facts) -/
+/-- Each of these definitions is generated from the lock / deferred-unlock statement of the named function and
+    exists only if that statement is in the source: `updateMetadata`, `deregisterBroker` and `resurrectDeadBrokers`
+    take `client.lock.Lock()` with a deferred `Unlock()`, the cached getters, `Brokers` and `any` take `RLock()` with a
+    deferred `RUnlock()`. (Presence only; that the critical sections exclude each other is what the race-detector
+    run of the harness observes.) -/
+theorem lock_statements_present :
+    (Gen.C15.lockUpdateMetadata,
+     Gen.C15.lockCachedPartitions,
+     Gen.C15.lockCachedMetadata,
+     Gen.C15.lockCachedLeader,
+     Gen.C15.lockBrokers,
+     Gen.C15.lockAny,
+     Gen.C15.lockDeregisterBroker,
+     Gen.C15.lockResurrectDeadBrokers,
+     Gen.C15.unlockUpdateMetadata,
+     Gen.C15.unlockCachedPartitions,
+     Gen.C15.unlockCachedMetadata,
+     Gen.C15.unlockCachedLeader,
+     Gen.C15.unlockBrokers,
+     Gen.C15.unlockAny,
+     Gen.C15.unlockDeregisterBroker,
+     Gen.C15.unlockResurrectDeadBrokers) = ((), (), (), (), (), (), (), (), (), (), (), (), (), (), (), ()) := rfl
+
 end Bridge.C15
